@@ -98,7 +98,7 @@ CHECKS = {
          'self-wait rules, reader call-graph rule',
          'Decides lock balance on every exit of every writer function (R-BAL), the conditional contract of lock_parent '
          '(R-LP), the documented acquisition order at every blocking acquire (R-ORDL), no spin on an own lock '
-         '(R-NSW), lock-free readers (R-RDR), the CAS-loop discipline of the lock word (R-CASL, R-MX, shared with C17) '
+         '(R-NSW), lock-free readers (R-RDR) that never park themselves until a version word changes (R-WAIT), the CAS-loop discipline of the lock word (R-CASL, R-MX, shared with C17) '
          'and stores to neighbour / parent links under the guarding lock (R-MUL, shared with C08). Termination of the optimistic retry loops is not decided.',
          'clang 14 AST/CFG; three named unreachable fall-off tails are exempt from balance',
          'DESIGN.md section 5, C09'),
@@ -125,7 +125,7 @@ CHECKS = {
          '(R-OWN), that a displaced value is retired (R-SWAP) and never dropped by set_value (R-DISP), that fin drains every container the GC fills and every '
          'session (R-DRAIN), and that recursive teardown covers every link with an exactly-once hand-over to the GC '
          '(R-DESTROY), and that a tree root pointer is nulled only when the loaded root is null or destroyed on that '
-         'path (R-ROOT). Allocator balance over histories is not decided.',
+         'path (R-ROOT), and that the one-element GC caches are written only when empty (R-CACHE1). Allocator balance over histories is not decided.',
          'clang 14 AST/CFG; objects stored into the tree are released by teardown / GC',
          'DESIGN.md section 5, C11'),
  'C10': ('cursor typestates (range reader with iscan_check_retry, validate-after-read, early-abort, '
@@ -138,7 +138,8 @@ CHECKS = {
          'enumeration ended or a fresh validated link lookup found it gone (R-POP), copies of the stack top are not '
          'used after the stack changed (R-STALE), a mirror of the saved state diverges only to feed the push of the '
          'child element (R-CACHE), the saved layer root is the root the border was found from (R-LROOT), the '
-         'neighbour back link is tested after the neighbour snapshot (R-BACK). That the produced sequence equals the '
+         'neighbour back link is tested after the neighbour snapshot (R-BACK), the scan end out of the stale-root '
+         'handling is reported only for a deleted root (R-END0). That the produced sequence equals the '
          'interval is not decided.',
          'clang 14 AST/CFG; iscan_check_retry OK means version and permutation unchanged',
          'DESIGN.md section 5, C10'),
@@ -171,7 +172,7 @@ CHECKS = {
          'Decides single atomic publication per mutator path (R-PUB1), that no shift amount reaches 64 for any abstract '
          '(rank, count) admitted by the preconditions (R-SHIFT, exhaustive over the finite abstraction), free-slot '
          'discipline (R-SLOT), the word layout (R-LAYP) and, reader side, that lock-free readers consume the word through '
-         'one local snapshot (R-RD1). The bit-precise correctness of the shift arithmetic is '
+         'one local snapshot (R-RD1) and never use a rank as a slot number (R-IDX). The bit-precise correctness of the shift arithmetic is '
          'not decided.',
          'clang 14 AST/CFG; caller preconditions rank <= count <= 15 assumed',
          'DESIGN.md section 5, C19'),
